@@ -19,36 +19,36 @@ Thr == 1..3
 
 VARIABLES orig,      \* thresholds of the metadata object passed in (must never change)
           work,      \* thresholds of the working copy
-          sigs,      \* key -> version of the working copy the signature was made over (0 = none)
-          ver,       \* ghost: number of edits of the working copy so far
+          sigs,      \* key -> the CONTENT (thresholds) of the working copy the signature was made over (NoSig = none): a signature counts
+                     \* again when later edits bring the working copy back to exactly that content
           file,      \* what has been written: [thr, sigs] or NoFile
           done, hist
-vars == <<orig, work, sigs, ver, file, done, hist>>
+vars == <<orig, work, sigs, file, done, hist>>
 
 NoFile == [written |-> FALSE, thr |-> [r \in Roles |-> 0], valid |-> {}]
-ValidSigners == {k \in Keys : sigs[k] = ver + 1}           \* signatures made over the current content
+NoSig == [r \in Roles |-> 0]
+ValidSigners == {k \in Keys : sigs[k] = work}              \* signatures made over the current content
 
-Init == /\ orig \in [Roles -> {1, 2}] /\ work = orig /\ sigs = [k \in Keys |-> 0] /\ ver = 0
+Init == /\ orig \in [Roles -> {1, 2}] /\ work = orig /\ sigs = [k \in Keys |-> NoSig]
         /\ file = NoFile /\ done = FALSE /\ hist = <<>>
 
 Log(x) == hist' = Append(hist, x)
 SetThreshold(role, t) ==
   /\ ~done /\ role \in Roles /\ t \in Thr
   /\ work' = [work EXCEPT ![role] = t]
-  /\ ver' = IF work[role] = t THEN ver ELSE ver + 1          \* a real edit invalidates earlier signatures
   /\ orig' = IF MUTANT = "no_copy" THEN [orig EXCEPT ![role] = t] ELSE orig
   /\ Log([op |-> "thresh", role |-> role, value |-> t]) /\ UNCHANGED <<sigs, file, done>>
 BadThreshold(role, v) ==           \* unknown delegation, or a value that is not an integer >= 1
-  /\ ~done /\ Log([op |-> "thresh_bad", role |-> role, value |-> v]) /\ UNCHANGED <<orig, work, sigs, ver, file, done>>
+  /\ ~done /\ Log([op |-> "thresh_bad", role |-> role, value |-> v]) /\ UNCHANGED <<orig, work, sigs, file, done>>
 AddSig(k) ==
-  /\ ~done /\ sigs' = [sigs EXCEPT ![k] = ver + 1]
-  /\ Log([op |-> "addsig", key |-> k]) /\ UNCHANGED <<orig, work, ver, file, done>>
-BadKey == /\ ~done /\ Log([op |-> "addsig_bad"]) /\ UNCHANGED <<orig, work, sigs, ver, file, done>>
-Noop(c) == /\ ~done /\ Log([op |-> "noop", choice |-> c]) /\ UNCHANGED <<orig, work, sigs, ver, file, done>>
+  /\ ~done /\ sigs' = [sigs EXCEPT ![k] = work]
+  /\ Log([op |-> "addsig", key |-> k]) /\ UNCHANGED <<orig, work, file, done>>
+BadKey == /\ ~done /\ Log([op |-> "addsig_bad"]) /\ UNCHANGED <<orig, work, sigs, file, done>>
+Noop(c) == /\ ~done /\ Log([op |-> "noop", choice |-> c]) /\ UNCHANGED <<orig, work, sigs, file, done>>
 Write == /\ ~done /\ done' = TRUE
          /\ file' = [written |-> TRUE, thr |-> work, valid |-> ValidSigners]
-         /\ Log([op |-> "write"]) /\ UNCHANGED <<orig, work, sigs, ver>>
-Abort == /\ ~done /\ done' = TRUE /\ Log([op |-> "abort"]) /\ UNCHANGED <<orig, work, sigs, ver, file>>
+         /\ Log([op |-> "write"]) /\ UNCHANGED <<orig, work, sigs>>
+Abort == /\ ~done /\ done' = TRUE /\ Log([op |-> "abort"]) /\ UNCHANGED <<orig, work, sigs, file>>
 
 Next == /\ Len(hist) < Depth
         /\ \/ \E r \in Roles, t \in Thr : SetThreshold(r, t)
